@@ -14,23 +14,24 @@ EXTENDS Naturals, Integers, TLC
 
 Cmds == {"c", "a", "l", "x", "t", "i"}
 (* condition of the archive the command meets *)
-Conds == {"intact", "intact-empty", "intact-dirs", "header-damaged", "data-damaged", "stored-damaged", "needs-password", "unsupported-method", "absent", "exists"}
+Conds == {"intact", "intact-empty", "intact-dirs", "header-damaged", "data-damaged", "stored-damaged", "noname-damaged", "needs-password", "unsupported-method", "absent", "exists"}
 (* intact-empty: an archive without members; intact-dirs: directories only (no packed streams at all);                      *)
 (* stored-damaged: a byte of a stored (Copy) member changed - no decoder notices, only the member's CRC                     *)
+(* noname-damaged: the same, the damaged member being one whose recorded name is the empty string (testzip() answers '')    *)
 Good == {"intact", "intact-empty", "intact-dirs"}
 (* option class: volume size argument (for c), or none *)
-Opts == {"none", "verbose", "vol-digits", "vol-b", "vol-k", "vol-m", "vol-g", "vol-tiny", "vol-bad-unit", "vol-empty", "no-suffix", "dotted-name", "cwd"}
+Opts == {"none", "verbose", "vol-digits", "vol-b", "vol-k", "vol-m", "vol-g", "vol-upper", "vol-tiny", "vol-bad-unit", "vol-empty", "no-suffix", "dotted-name", "cwd"}
 (* no-suffix: archive name given without ".7z" (the CLI appends it); dotted-name: ... and with another dot in it ("arc.v1" -> "arc.v1.7z") *)
 
-VolumeValid(o) == o \in {"vol-digits", "vol-b", "vol-k", "vol-m", "vol-g", "vol-tiny"}      \* (vol-tiny: 200b for 400 KB of data, ~2000 volumes)        \* the grammar the help describes: [0-9]+[bkmg]?
+VolumeValid(o) == o \in {"vol-digits", "vol-b", "vol-k", "vol-m", "vol-g", "vol-upper", "vol-tiny"}      \* (vol-tiny: 200b for 400 KB of data, ~2000 volumes)        \* the grammar the help describes: [0-9]+[bkmg]?
 
 Meaningful(cmd, cond, opt) ==
   CASE cmd = "i" -> cond = "absent" /\ opt = "none"
-    [] cmd = "c" -> cond \in {"absent", "exists"} /\ opt \in {"none", "no-suffix", "dotted-name", "vol-digits", "vol-b", "vol-k", "vol-m", "vol-g", "vol-tiny", "vol-bad-unit", "vol-empty"}
+    [] cmd = "c" -> cond \in {"absent", "exists"} /\ opt \in {"none", "no-suffix", "dotted-name", "vol-digits", "vol-b", "vol-k", "vol-m", "vol-g", "vol-upper", "vol-tiny", "vol-bad-unit", "vol-empty"}
     [] cmd = "a" -> cond \in {"intact", "absent", "header-damaged"} /\ opt = "none"
     [] cmd = "l" -> cond \in Good \cup {"header-damaged", "data-damaged", "stored-damaged", "needs-password"} /\ opt \in {"none", "verbose"}
-    [] cmd = "x" -> cond \in Good \cup {"header-damaged", "data-damaged", "stored-damaged", "needs-password", "unsupported-method"} /\ opt \in {"none", "verbose", "cwd"}
-    [] cmd = "t" -> cond \in Good \cup {"header-damaged", "data-damaged", "stored-damaged", "needs-password", "unsupported-method"} /\ opt = "none"
+    [] cmd = "x" -> cond \in Good \cup {"header-damaged", "data-damaged", "stored-damaged", "noname-damaged", "needs-password", "unsupported-method"} /\ opt \in {"none", "verbose", "cwd"}
+    [] cmd = "t" -> cond \in Good \cup {"header-damaged", "data-damaged", "stored-damaged", "noname-damaged", "needs-password", "unsupported-method"} /\ opt = "none"
 
 Succeeds(cmd, cond, opt) ==
   CASE cmd = "i" -> TRUE
